@@ -386,6 +386,16 @@ class FGenFile:
                                  predicted=ok, kind='independent of the network'))
         return ok
 
+    def thm_same_ops(self, name, defname, tree, other, what=''):
+        """the definition is, operation for operation, the given expression (decidable syntactic equality: no arithmetic law is used)"""
+        ok = tree == other
+        if not ok:
+            self.failures.append((name, 'the two traces are not the same sequence of operations'))
+        stmt = f'{defname} = {lean_fex(other)}'
+        self.chunks.append(f'/-- {what} -/\ntheorem {name} :\n    {stmt} := by decide\n')
+        self.obligations.append(Obligation(name, 'same-operations', stmt[:600], what))
+        return ok
+
     def text(self):
         return HEADER + f'\nnamespace {self.ns}\n\n' + '\n'.join(self.chunks) + f'\nend {self.ns}\n'
 
@@ -400,7 +410,42 @@ class FGenFile:
         return False
 
 
-def exact_part(g, pid, nodes, ctxs, specs, stats=None):
+class TGenFile:
+    """generated module `<pid>T`: FEx.toEx σ <scenario>_f = <scenario> (the Ex definition of the same trace), by rfl"""
+
+    def __init__(self, pid, base):
+        self.pid, self.base = pid, base
+        self.ns = f'Gen{pid}'
+        self.parts, self.chunks, self.obligations, self.failures, self.skipped = [], [], [], [], []
+        self.imports = {f'NdeVerif.Gen.{base}X'}
+
+    def tie(self, name, sigma, module, ns):
+        self.imports.add(module)
+        arms = ' '.join(f'| {i} => {j}' for i, j in enumerate(sigma))
+        sig = f'(fun {arms} | _ => 0)' if sigma else '(fun _ => 0)'
+        thm = f'{name}_f_forgets_to_{name}'
+        stmt = f'FEx.toEx {sig} Gen{self.base}X.{name}_f = {ns}.{name}'
+        self.chunks.append(f'theorem {thm} :\n    {stmt} := rfl\n')
+        self.obligations.append(Obligation(thm, 'same-expression', stmt, f'the operation-order translation of scenario {name} forgets to the Ex translation of the same trace'))
+
+    def text(self):
+        head = ("/- GENERATED by /verif/harness from /repo's current working tree. Do not edit.\n   The two translations of every trace agree "
+                "(FEx.toEx forgets the order of operations; see NdeVerif/Calc/FExToEx.lean). -/\nimport NdeVerif.Calc.FExToEx\n"
+                + ''.join(f'import {m}\n' for m in sorted(self.imports)) + 'set_option maxRecDepth 8000\nopen NdeVerif\n')
+        return head + f'\nnamespace {self.ns}\n\n' + '\n'.join(self.chunks) + f'\nend {self.ns}\n'
+
+    def write(self, path):
+        t = self.text()
+        old = open(path).read() if os.path.exists(path) else None
+        if old != t:
+            os.makedirs(os.path.dirname(path), exist_ok=True)
+            with open(path, 'w') as f:
+                f.write(t)
+            return True
+        return False
+
+
+def exact_part(g, pid, nodes, ctxs, specs, stats=None, ex_home=None):
     """attach the operation-order module `<pid>X` to the GenFile `g`.
     nodes: {scenario: DAG node of the traced result}; ctxs: {scenario: naming context of the trace};
     specs: [(theorem name, scenario, [(coordinate name, parameter name | 0)], target, what)] where target is a variable name or a
@@ -440,6 +485,27 @@ def exact_part(g, pid, nodes, ctxs, specs, stats=None):
                         examples=fg.summary[:: max(1, len(fg.summary) // 6)][:8], not_reduced=[n for n, _ in fg.failures],
                         meaning='the traced code, operation for operation, returns EXACTLY the prescribed value at the constrained point in every '
                                 'arithmetic satisfying the IEEE-754 identities Arith.Exact, under the listed finiteness / non-zero side conditions')
+    # third module: the two translations of each trace are the same expression once the order of operations is forgotten (rfl in the kernel)
+    tg = TGenFile(pid + 'T', pid)
+    ex_home = ex_home or {}
+    for name, ft in ftrees.items():
+        c = fctx[name]
+        sigma, ok = [], True
+        for nm in c.syms:
+            base = nm[2:] if nm.startswith('F:') else nm
+            if nm.startswith('F:d#') or '^' in nm or base not in ctxs[name].syms:
+                ok = False
+                break
+            sigma.append(ctxs[name].syms.index(base))
+        if not ok:
+            tg.skipped.append((name, 'contains an autograd node / a derivative symbol (kept opaque in the operation-order model)'))
+            continue
+        module, ns = ex_home.get(name, (f'NdeVerif.Gen.{pid}', f'Gen{pid}'))
+        tg.tie(name, sigma, module, ns)
+    if tg.obligations:
+        g.parts.append(tg)
+    g.exact_info['same_expression_as_the_real_valued_model'] = dict(module=f'NdeVerif.Gen.{pid}T', theorems=len(tg.obligations),
+                                                                   scenarios_with_opaque_derivatives=[n for n, _ in tg.skipped])
     from . import fexlaws
     g.exact_info['ieee_identities_sampled'] = fexlaws.sample()
     return fg
@@ -450,3 +516,23 @@ def app_of(name, *argnames):
     def build(c):
         return ('app', c.sym('F:' + name, len(argnames)), tuple(('var', c.vars.index(a)) for a in argnames))
     return build
+
+
+def retarget(t, vars_from, vars_to, sym_map):
+    """re-index the variables (by name) and the symbols (by the given index map) of an FEx tree"""
+    op = t[0]
+    if op == 'var':
+        return ('var', vars_to.index(vars_from[t[1]]))
+    if op in ('zero', 'one', 'lit', 'pi'):
+        return t
+    if op in ('add', 'sub', 'mul', 'div'):
+        return (op, retarget(t[1], vars_from, vars_to, sym_map), retarget(t[2], vars_from, vars_to, sym_map))
+    if op == 'neg':
+        return ('neg', retarget(t[1], vars_from, vars_to, sym_map))
+    if op == 'pow':
+        return ('pow', retarget(t[1], vars_from, vars_to, sym_map), t[2])
+    if op == 'un':
+        return ('un', t[1], retarget(t[2], vars_from, vars_to, sym_map))
+    if op == 'app':
+        return ('app', sym_map[t[1]], tuple(retarget(a, vars_from, vars_to, sym_map) for a in t[2]))
+    raise Unsupported(op)
